@@ -7,6 +7,8 @@ import (
 	"math/big"
 	"math/rand"
 	randv2 "math/rand/v2"
+	"os"
+	"runtime/debug"
 	"sort"
 	"strings"
 	"time"
@@ -506,6 +508,9 @@ func (d *DB) exec(text string, v variant, rnd *rand.Rand) (outs []Outcome, skipp
 	}
 	defer func() {
 		if e := recover(); e != nil {
+			if os.Getenv("VERIF_STACKS") != "" {
+				fmt.Fprintf(os.Stderr, "PANIC %v in %s [%s]\n%s\n", e, text, v, debug.Stack())
+			}
 			fail(e)
 		}
 	}()
